@@ -562,9 +562,11 @@ func runFrame(fr *frame) {
 			// Engine payload (path end, unsupported, abort) or interpreter bug:
 			// unwind without running target defers.
 			if _, ok := p.(runtime.Error); ok {
-				p = engineError{fmt.Sprintf("%v at %s", p, fr.site()), stackOf()}
+				p = engineError{fmt.Sprintf("%v at %s", p, fr.site()), "target: " + fr.stack() + "\n" + stackOf()}
 			} else if s, ok := p.(string); ok {
-				p = engineError{fmt.Sprintf("%s at %s", s, fr.site()), stackOf()}
+				p = engineError{fmt.Sprintf("%s at %s", s, fr.site()), "target: " + fr.stack() + "\n" + stackOf()}
+			} else if u, ok := p.(unsupportedPanic); ok && !strings.Contains(u.msg, " <- ") {
+				p = unsupportedPanic{u.msg + " [at " + fr.stack() + "]"}
 			}
 			panic(p)
 		}
